@@ -3,6 +3,7 @@
 package connection
 
 import (
+	"bufio"
 	"bytes"
 	"context"
 	"crypto/sha256"
@@ -1142,4 +1143,205 @@ func TestVerifC16AbortThenConcurrent(t *testing.T) {
 		}
 	}
 	out.emit(map[string]interface{}{"kind": "abort-then-concurrent", "aborted_downloads": 8, "concurrent_downloads": 8, "bytes_each": total, "bad": bad, "results": results})
+}
+
+// TestVerifC15Passthrough: requests that are not bridge streams, sent as raw bytes to the real tcp-bridge-backend binary,
+// which must hand them to the backend port unchanged: method, request target (path and query exactly as sent, also
+// queries with ';', a stray '%', repeated or unsorted parameters), Host, end-to-end header fields and body.  The backend
+// is a raw TCP server that records what arrives.
+func TestVerifC15Passthrough(t *testing.T) {
+	out := verifOpenOut(t)
+	defer out.close()
+	bb := os.Getenv("VERIF_BRIDGE_BACKEND_BIN")
+	if bb == "" {
+		t.Skip("bridge binaries not provided")
+	}
+	ln, err := net.Listen("tcp", "127.0.0.1:0")
+	if err != nil {
+		t.Fatal(err)
+	}
+	defer ln.Close()
+	type seenReq struct {
+		Line   string
+		Header http.Header
+		Host   string
+		Body   string
+	}
+	var mu sync.Mutex
+	seen := map[string]seenReq{}
+	go func() {
+		for {
+			c, err := ln.Accept()
+			if err != nil {
+				return
+			}
+			go func(c net.Conn) {
+				defer c.Close()
+				br := bufio.NewReader(c)
+				for {
+					line, err := br.ReadString('\n')
+					if err != nil {
+						return
+					}
+					// the header and body through net/http's parser, the request line as the bytes that arrived
+					req, err := http.ReadRequest(bufio.NewReader(io.MultiReader(strings.NewReader(line), br)))
+					if err != nil {
+						return
+					}
+					body, _ := io.ReadAll(req.Body)
+					mu.Lock()
+					seen[req.Header.Get("X-Verif-Case")] = seenReq{Line: strings.TrimRight(line, "\r\n"), Header: req.Header, Host: req.Host, Body: string(body)}
+					mu.Unlock()
+					fmt.Fprintf(c, "HTTP/1.1 200 OK\r\nContent-Length: 2\r\nConnection: close\r\n\r\nok")
+					return
+				}
+			}(c)
+		}
+	}()
+	bport := verifFreePort()
+	cmd := exec.Command(bb, "-frontend-port", fmt.Sprint(bport), "-backend-port", fmt.Sprint(ln.Addr().(*net.TCPAddr).Port))
+	if err := cmd.Start(); err != nil {
+		t.Fatal(err)
+	}
+	defer func() { cmd.Process.Kill(); cmd.Wait() }()
+	addr := fmt.Sprintf("127.0.0.1:%d", bport)
+	for i := 0; i < 100; i++ {
+		if c, e := net.Dial("tcp", addr); e == nil {
+			c.Close()
+			break
+		}
+		time.Sleep(50 * time.Millisecond)
+	}
+	targets := []string{"/", "/search?q=a&lang=en", "/search?q=a;b&lang=en&first=1", "/x?p=%zz&ok=1", "/x?z=1&a=2&z=0", "/x?a=%41%2f+b", "/a%2Fb/c%20d?x=%3F", "/p?", "/p?&&", "/p?k",
+		"/p?k=v;k2=v2", "/very/" + strings.Repeat("long/", 300) + "?q=" + strings.Repeat("v", 3000), "/stream", "/streaming", "/x?url=http://other.example/?a=b%26c"}
+	for i, tg := range targets {
+		method := []string{"GET", "POST", "PUT", "DELETE", "OPTIONS"}[i%5]
+		body := ""
+		if method == "POST" || method == "PUT" {
+			body = strings.Repeat(fmt.Sprintf("body-%d;", i), 1+i*37)
+		}
+		cs := fmt.Sprintf("pt-%d", i)
+		var raw bytes.Buffer
+		fmt.Fprintf(&raw, "%s %s HTTP/1.1\r\nHost: bridged.example:8443\r\nX-Verif-Case: %s\r\nX-Custom: one\r\nX-Custom: two\r\nCookie: a=1; b=2\r\nAccept: */*\r\nConnection: close\r\n", method, tg, cs)
+		if body != "" {
+			fmt.Fprintf(&raw, "Content-Type: application/octet-stream\r\nContent-Length: %d\r\n", len(body))
+		}
+		raw.WriteString("\r\n" + body)
+		res := map[string]interface{}{"kind": "passthrough", "case": cs, "method": method, "target": tg, "body_len": len(body), "body_sum": verifSum([]byte(body))}
+		c, err := net.Dial("tcp", addr)
+		if err != nil {
+			res["err"] = err.Error()
+			out.emit(res)
+			continue
+		}
+		c.SetDeadline(time.Now().Add(10 * time.Second))
+		c.Write(raw.Bytes())
+		resp, err := http.ReadResponse(bufio.NewReader(c), nil)
+		if err != nil {
+			res["err"] = "no response: " + err.Error()
+		} else {
+			io.Copy(io.Discard, resp.Body)
+			res["status"] = resp.StatusCode
+		}
+		c.Close()
+		mu.Lock()
+		s, ok := seen[cs]
+		mu.Unlock()
+		res["reached_backend"] = ok
+		if ok {
+			res["seen_line"], res["seen_host"], res["seen_custom"], res["seen_cookie"] = s.Line, s.Host, s.Header.Values("X-Custom"), s.Header.Get("Cookie")
+			res["seen_body_len"], res["seen_body_sum"] = len(s.Body), verifSum([]byte(s.Body))
+		}
+		out.emit(res)
+	}
+}
+
+// TestVerifC16Stall: the websocket peer of the frontend accepts the TCP connection and never answers the upgrade request (a
+// wedged backend half, a proxy with no agent polling).  Client A hangs up after a second, client B stays and waits.  The
+// frontend must give the set-up up within bounded time: B observes end of stream and both half-open websocket sockets are
+// released (the bound in the source is the dialer's 45 s handshake timeout; the run allows 65 s).
+func TestVerifC16Stall(t *testing.T) {
+	out := verifOpenOut(t)
+	defer out.close()
+	fb := os.Getenv("VERIF_BRIDGE_FRONTEND_BIN")
+	if fb == "" {
+		t.Skip("bridge binaries not provided")
+	}
+	ln, err := net.Listen("tcp", "127.0.0.1:0")
+	if err != nil {
+		t.Fatal(err)
+	}
+	defer ln.Close()
+	start := time.Now()
+	var mu sync.Mutex
+	accepted, released := 0, []int64{}
+	go func() {
+		for {
+			c, err := ln.Accept()
+			if err != nil {
+				return
+			}
+			mu.Lock()
+			accepted++
+			mu.Unlock()
+			go func(c net.Conn) {
+				// read the upgrade request and whatever follows, answer nothing; returns when the frontend lets go
+				io.Copy(io.Discard, c)
+				mu.Lock()
+				released = append(released, time.Since(start).Milliseconds())
+				mu.Unlock()
+				c.Close()
+			}(c)
+		}
+	}()
+	fport := verifFreePort()
+	cmd := exec.Command(fb, "-frontend-port", fmt.Sprint(fport), "-backend", fmt.Sprintf("ws://%s", ln.Addr().String()))
+	if err := cmd.Start(); err != nil {
+		t.Fatal(err)
+	}
+	defer func() { cmd.Process.Kill(); cmd.Wait() }()
+	addr := fmt.Sprintf("127.0.0.1:%d", fport)
+	for i := 0; i < 100; i++ {
+		if c, e := net.Dial("tcp", addr); e == nil {
+			c.Close()
+			break
+		}
+		time.Sleep(50 * time.Millisecond)
+	}
+	time.Sleep(300 * time.Millisecond)
+	mu.Lock()
+	probe := accepted
+	mu.Unlock()
+	start = time.Now()
+	res := map[string]interface{}{"kind": "stall", "bound_ms": 65000}
+	a, errA := net.Dial("tcp", addr)
+	b, errB := net.Dial("tcp", addr)
+	if errA != nil || errB != nil {
+		res["err"] = fmt.Sprint(errA, errB)
+		out.emit(res)
+		return
+	}
+	a.Write([]byte("hello from A"))
+	b.Write([]byte("hello from B"))
+	time.Sleep(time.Second)
+	a.Close()
+	bEOF := make(chan int64, 1)
+	go func() {
+		io.Copy(io.Discard, b)
+		bEOF <- time.Since(start).Milliseconds()
+	}()
+	select {
+	case ms := <-bEOF:
+		res["waiting_client_saw_end_after_ms"] = ms
+	case <-time.After(65 * time.Second):
+		res["waiting_client_saw_end_after_ms"] = -1
+	}
+	b.Close()
+	time.Sleep(500 * time.Millisecond)
+	mu.Lock()
+	// (including the ones opened for the start-up probes, which are clients that hung up at once)
+	_ = probe
+	res["websocket_sockets_opened"], res["websocket_sockets_released_after_ms"] = accepted, append([]int64{}, released...)
+	mu.Unlock()
+	out.emit(res)
 }
